@@ -28,6 +28,7 @@ from . import ops
 
 
 def to_str(I, v, repr_=False):
+    v = I.unopt(v)
     if isinstance(v, SStr):
         if repr_:
             cs = concrete_str(v.t)
@@ -186,6 +187,7 @@ def to_list_items(I, v):
 
 def call_builtin(I, live, args, kwargs, node=None):
     c = I.ctx
+    args = [I.unopt(a) for a in args]
     qn = f"{getattr(live, '__module__', '')}:{getattr(live, '__qualname__', getattr(live, '__name__', repr(live)))}"
     ov = I.overrides.get(qn)
     if ov is not None:
@@ -486,7 +488,9 @@ def sorted_model(I, v, kwargs, node):
 
 def call_method_model(I, recv, name, args, kwargs, node=None):
     c = I.ctx
-    v = recv
+    v = I.unopt(recv)
+    if isinstance(v, ZVal) or isinstance(v, SStr):
+        args = [I.unopt(a) for a in args]
     if isinstance(v, SStr):
         return str_method(I, v, name, args, kwargs, node)
     if isinstance(v, SList):
